@@ -53,14 +53,13 @@ def expected(cfg):
     default_name = cfg["output_filename"] or "%s.%s" % (cfg.get("entry_stem", "main"), fmt)
     files = {}
     order = []
-    if fmt == "prg":
-        lo = images[0][1]
-        files[default_name] = bytes([lo & 255, (lo >> 8) & 255])
-        order.append(default_name)
-    for b, lo, img in images:
+    for k, (b, lo, img) in enumerate(images):
         fn = b["filename"] or default_name
         if fn not in files:
             files[fn] = b""
             order.append(fn)
+        if fmt == "prg" and k == 0:
+            # "prg output is prefixed with the start address of the first bank": the prefix belongs to the file that holds that bank
+            files[fn] += bytes([lo & 255, (lo >> 8) & 255])
         files[fn] += img
     return "ok", files
